@@ -558,6 +558,9 @@ class Server:
 
         __, n_notes, __ = count_stats(messages)
         status = 1 if messages and n_notes < len(messages) else 0
+        if self.fine_grained_manager.blocking_error:
+            # The catch-up update after loading a fine-grained cache hit a blocking error.
+            status = 2
         # We use explicit sources length to match the logic in non-incremental mode.
         messages = self.pretty_messages(messages, original_sources_len, is_tty, terminal_width)
         return {"out": "".join(s + "\n" for s in messages), "err": "", "status": status}
